@@ -345,8 +345,12 @@ func runC19(c *Ctx) {
 			ev.Distinct("law|" + p.Fn + "|" + string(intsToBytes(p.In)) + "|" + string(intsToBytes(p.Var)))
 		}
 	}
+	perSig := map[string]int{}
 	for _, i := range bad {
 		p := pairs[i]
+		if perSig[p.Fn+lawClass(p)]++; perSig[p.Fn+lawClass(p)] > 3 {
+			continue // each reproduction is a TLC run
+		}
 		// reproduce alone
 		if b2, _ := judgePairs(c, []utilPair{makePair(p.Fn, intsToBytes(p.In), intsToBytes(p.Var))}); len(b2) == 0 {
 			infra("pair rejected in the batch but accepted alone")
